@@ -778,10 +778,31 @@ pub fn pool_job(seed: u64, k: usize, c: &Corpus) -> Job {
 }
 
 /// What must be identical across environments.
+/// `--debug-iters` prints values in their Debug form, and a span's Debug form
+/// shows the file-handle number (`Span(file#4[155..196])`). The handle table
+/// belongs to the file server the caller passes in — an *input* of the
+/// library call, which the handle-layout dimension varies on purpose — so
+/// the number itself is not compared.
+pub fn mask_file_handles(s: &str) -> String {
+    let mut out = String::with_capacity(s.len());
+    let mut rest = s;
+    while let Some(i) = rest.find("file#") {
+        out.push_str(&rest[..i + 5]);
+        rest = &rest[i + 5..];
+        let digits = rest.chars().take_while(|c| c.is_ascii_digit()).count();
+        if digits > 0 {
+            out.push('_');
+        }
+        rest = &rest[digits..];
+    }
+    out.push_str(rest);
+    out
+}
+
 pub fn fields(rec: &Record) -> Vec<(String, String)> {
     let mut f = Vec::new();
     f.push(("outcome".to_string(), format!("{:?}", rec.outcome)));
-    f.push(("stdout".to_string(), String::from_utf8_lossy(&rec.stdout).to_string()));
+    f.push(("stdout".to_string(), mask_file_handles(&String::from_utf8_lossy(&rec.stdout))));
     f.push(("stderr".to_string(), String::from_utf8_lossy(&rec.stderr).to_string()));
     let w: Vec<String> = rec.writes.iter().map(|w| format!("{}|{}|{}", w.spelling, hex128(digest128(&w.data)), w.complete)).collect();
     f.push(("writes".to_string(), format!("{:?}", w)));
